@@ -21,10 +21,11 @@ type Clause struct {
 }
 
 type LoopSpec struct {
-	Ord        int
-	Invariants []Clause
-	Decreases  *Clause
-	Unroll     int
+	Ord           int
+	Invariants    []Clause
+	Decreases     *Clause
+	DecreasesMore []Clause // further components of a lexicographic measure
+	Unroll        int
 }
 
 type FuncSpec struct {
@@ -483,11 +484,22 @@ func (fs *FuncSpec) addDirective(word, rest, where string) error {
 			}
 			ls.Invariants = append(ls.Invariants, c)
 		case "decreases":
-			c, err := mkClause(r, where)
+			// decreases e1; e2; ...: lexicographic tuple (each component bounded below by 0)
+			parts := splitTop(r, ';')
+			c, err := mkClause(strings.TrimSpace(parts[0]), where)
 			if err != nil {
 				return err
 			}
+			c.Src = r
 			ls.Decreases = &c
+			ls.DecreasesMore = nil
+			for _, pt := range parts[1:] {
+				cc, err := mkClause(strings.TrimSpace(pt), where)
+				if err != nil {
+					return err
+				}
+				ls.DecreasesMore = append(ls.DecreasesMore, cc)
+			}
 		case "unroll":
 			k, err := strconv.Atoi(r)
 			if err != nil {
